@@ -91,3 +91,34 @@ class Holder:
     def bump(self):
         Holder.count = 1
         self.values.append(0)
+
+
+# ----------------------------------------------------------------------------- PU-CACHE: module-level memos
+_WS_TOTAL = {}
+_WS_SPLIT = {}
+
+
+def _matrix_keyed_by_total(m, n):
+    D = _WS_TOTAL.get(m + n)
+    if D is None:
+        D = np.zeros((m + n, m + n))
+        D[0:m, n:] = 1.0          # the layout depends on the split, the key only on the total
+        _WS_TOTAL[m + n] = D
+    return D
+
+
+def cache_keyed_by_too_little(m, n):
+    return _matrix_keyed_by_total(m, n).sum()
+
+
+def _matrix_keyed_by_split(m, n):
+    D = _WS_SPLIT.get((m, n))
+    if D is None:
+        D = np.zeros((m + n, m + n))
+        D[0:m, n:] = 1.0
+        _WS_SPLIT[(m, n)] = D
+    return D
+
+
+def cache_keyed_completely(m, n):
+    return _matrix_keyed_by_split(m, n).sum()
